@@ -50,7 +50,14 @@ type wireCensus struct {
 	Entries []wireCensusEntry `json:"entries"`
 }
 
+type wireCmp struct {
+	Pkg  string         `json:"pkg"`
+	Name string         `json:"name"`
+	Ops  map[string]int `json:"ops"` // normalised with the constant on the right-hand side
+}
+
 type wireSpec struct {
+	Cmps      []wireCmp    `json:"cmps"`
 	Comment   string       `json:"comment"`
 	Constants []wireConst  `json:"constants"`
 	Tables    []wireTable  `json:"tables"`
@@ -386,6 +393,12 @@ func genWireSpec(p *Prog) *wireSpec {
 		}
 		spec.Constants = append(spec.Constants, wc)
 	}
+	cmps := constComparisons(p)
+	for _, wc := range spec.Constants {
+		if m := cmps[wc.Pkg+"."+wc.Name]; len(m) > 0 {
+			spec.Cmps = append(spec.Cmps, wireCmp{wc.Pkg, wc.Name, m})
+		}
+	}
 	spec.Tables = literalTables(p)
 	for _, a := range censusAnchors {
 		f := resolveAnchor(p, a)
@@ -409,6 +422,77 @@ func genWireSpec(p *Prog) *wireSpec {
 		spec.Census = append(spec.Census, wireCensus{a, es})
 	}
 	return spec
+}
+
+// constComparisons: for every package-level constant of the library packages, the multiset of comparison operators it
+// is used with (normalised so that the constant is the right-hand operand).
+func constComparisons(p *Prog) map[string]map[string]int {
+	out := map[string]map[string]int{}
+	for _, pk := range p.Pkgs {
+		rel := strings.TrimPrefix(strings.TrimPrefix(pk.PkgPath, p.ModPath), "/")
+		if !isLibRel(rel) {
+			continue
+		}
+		constOf := func(e ast.Expr) *types.Const {
+			for {
+				switch x := e.(type) {
+				case *ast.ParenExpr:
+					e = x.X
+					continue
+				case *ast.CallExpr:
+					// conversion T(c)
+					if len(x.Args) == 1 {
+						if tv, ok := pk.TypesInfo.Types[x.Fun]; ok && tv.IsType() {
+							e = x.Args[0]
+							continue
+						}
+					}
+				case *ast.Ident:
+					if c, ok := pk.TypesInfo.Uses[x].(*types.Const); ok && c.Pkg() != nil && c.Parent() == c.Pkg().Scope() {
+						return c
+					}
+				case *ast.SelectorExpr:
+					if c, ok := pk.TypesInfo.Uses[x.Sel].(*types.Const); ok && c.Pkg() != nil && c.Parent() == c.Pkg().Scope() {
+						return c
+					}
+				}
+				return nil
+			}
+		}
+		for _, file := range pk.Syntax {
+			if strings.HasSuffix(p.Fset.Position(file.Pos()).Filename, "_test.go") {
+				continue
+			}
+			ast.Inspect(file, func(n ast.Node) bool {
+				be, ok := n.(*ast.BinaryExpr)
+				if !ok {
+					return true
+				}
+				switch be.Op {
+				case token.LSS, token.LEQ, token.GTR, token.GEQ, token.EQL, token.NEQ:
+				default:
+					return true
+				}
+				op := be.Op
+				c := constOf(be.Y)
+				if c == nil {
+					if c = constOf(be.X); c == nil {
+						return true
+					}
+					op = mirrorOp(op)
+				} else if constOf(be.X) != nil {
+					return true // constant expression
+				}
+				key := relOfPkg(p, c.Pkg()) + "." + c.Name()
+				if out[key] == nil {
+					out[key] = map[string]int{}
+				}
+				out[key][op.String()]++
+				return true
+			})
+		}
+	}
+	return out
 }
 
 func loadWireSpec(path string) *wireSpec {
@@ -495,6 +579,22 @@ func ruleWire(p *Prog, r *RuleResult) {
 			continue
 		}
 		r.fail(key, "-", fmt.Sprintf("constant table %s.%s of bitstream format 6 is gone (no literal table with its content exists)", wt.Pkg, wt.Name))
+	}
+	curCmps := constComparisons(p)
+	for _, wc := range spec.Cmps {
+		if byPkg[wc.Pkg][wc.Name] == nil {
+			continue // renamed constant: its value is checked above, its comparisons cannot be matched by name
+		}
+		got := curCmps[wc.Pkg+"."+wc.Name]
+		for _, op := range sortedKeys(wc.Ops) {
+			n++
+			key := fmt.Sprintf("cmp.%s.%s#%s", wc.Pkg, wc.Name, op)
+			if got[op] >= wc.Ops[op] {
+				r.ok(fmt.Sprintf("%s x%d", key, got[op]), p.Pos(byPkg[wc.Pkg][wc.Name].Pos()))
+			} else {
+				r.fail(key, p.Pos(byPkg[wc.Pkg][wc.Name].Pos()), fmt.Sprintf("wire threshold %s.%s is compared with `%s` %d time(s); bitstream format 6 has %d (now used with %v): a boundary moved by one changes which layout both sides choose for inputs exactly at the threshold, so reference streams of that size no longer decode", wc.Pkg, wc.Name, op, got[op], wc.Ops[op], got))
+			}
+		}
 	}
 	for _, wcs := range spec.Census {
 		f := resolveAnchor(p, wcs.Anchor)
